@@ -44,3 +44,10 @@ Definition hlsl_spec_ci : list str := map z_of_string [
 ]%string.
 
 Definition hlsl_spec : list str := hlsl_spec_keywords ++ hlsl_spec_reserved.
+
+(* "Scalar data types" (HLSL reference, Shader Model 6.0 / 6.2 additions): fixed-width scalar type names.
+   They are not in the Keywords / Reserved Words appendices above; naga's table lacks them
+   (theorem c16_hlsl_sized_types_refuted). *)
+Definition hlsl_sized_types : list str := map z_of_string [
+  "int16_t"; "int32_t"; "int64_t"; "uint16_t"; "uint32_t"; "uint64_t"; "float16_t"; "float32_t"; "float64_t"
+]%string.
